@@ -38,6 +38,10 @@ from the source (500000, 2000 ms).
 * `garbage_payload_keeps_sync`    replacing the payload of any frame by any bytes of the same length changes no frame
                                   boundary and no other delivery
 * `nothing_of_incomplete_frame_delivered`  bytes of a frame that never completes are never delivered (untimed form)
+* `repaired_is_the_source_layout`  tie to the source: `Net.cfgOfSites Gen.deadlineSites = some Net.repaired` — the ordered
+                                  list of deadline call sites regenerated from connecttopanel.go (function, position in
+                                  the loop structure, read-only or both, zero time or now + constant) is `repaired`;
+                                  `constants_are_those_of_the_property_text`: limit = 500000, in-frame deadline = 2000 ms
 
 Observation outside the domain: "a frame whose bytes stop arriving for more than 2 s" is read as "a frame that does
 not complete within 2 s of its header" (the deadline of each read is absolute, `Spec.Net.inContractT`); a frame that
@@ -425,7 +429,25 @@ theorem nothing_of_incomplete_frame_delivered (fs : List Bytes) (f : Bytes) (k :
   have := parse_encode_append limit (by decide) fs ((frame f).take k) hfs
   rw [(feed_init_parse _).2, this, hp]; simp
 
+/-! ### the tie to the source -/
+
+/-- **"the code as it is" is the layout of the source**: the ordered list of `Set…Deadline` call sites regenerated
+from `ConnectToPanel` on this run is exactly the configuration `repaired` the theorems above are stated for (first header
+byte without deadline, 2000 ms armed after it and again before the payload read, cleared at the top of every iteration).
+Moving the loop-top reset behind the payload read (seeded changes C10-6, C10-7), dropping the call after the first header
+byte (the pinned tree before 7e5ba25) or making the duration depend on the frame (C10-2, C10-9) makes this fail. -/
+theorem repaired_is_the_source_layout : cfgOfSites Gen.deadlineSites = some repaired := by decide
+
+/-- the constants regenerated from the source are the numbers of the property text ("at or above the 500000-byte
+limit", "for more than 2 s") -/
+theorem constants_are_those_of_the_property_text :
+    limit = Spec.Net.frameLimit ∧ frameTimeout = Spec.Net.frameTimeoutMs := by decide
+
 /-! non-vacuity -/
+example : cfgOfSites (exampleSites.eraseIdx 3) = some pinned := by decide
+example : cfgOfSites ((exampleSites.eraseIdx 2) ++
+    [{ fn := 0, clear := true, addMs := none, loops := 2, path := [0, 1, 0, 1], first := false, reads := 4 }])
+    = some { repaired with loopTop := .skip, afterPayload := .clear .read } := by decide
 example : (feed .init ([1, 0, 0, 0, 7] ++ [32, 161, 7, 0] ++ [1, 0, 0, 0, 9])).1 = .stopped (.overLimit 500000) := by decide
 example : deliveries (feed .init ([1, 0, 0, 0, 7] ++ [32, 161, 7, 0] ++ [1, 0, 0, 0, 9])).2 = [[7]] := by decide
 example : (runL repaired (CState.probed repaired 0) [.enter 0, .arrive 0 36]).map (fun r => (r.1.r, r.1.dl.rd))
